@@ -21,11 +21,20 @@ namespace {
 struct rec_observer : ftp::observer
 {
     int id;
+    // re-entrant removal: armed with `rmin:<this>:<target>`, this observer unregisters the target from inside its next callback
+    int arm_target = -1; ftp::client *cl = nullptr; std::vector<std::shared_ptr<rec_observer>> *all = nullptr;
     explicit rec_observer(int i) : id(i) {}
-    void on_connected(std::string_view h, std::uint16_t p) override { ilog("o" + std::to_string(id) + ":c:" + hex(std::string(h)) + ":" + std::to_string(p)); }
-    void on_request(std::string_view c) override { ilog("o" + std::to_string(id) + ":q:" + hex(std::string(c))); }
-    void on_reply(const ftp::reply & r) override { ilog("o" + std::to_string(id) + ":r:" + std::to_string(r.get_code()) + ":" + hex(r.get_status_string())); }
-    void on_file_list(std::string_view l) override { ilog("o" + std::to_string(id) + ":l:" + hex(std::string(l))); }
+    void fire()
+    {
+        if (arm_target < 0 || !cl || !all) return;
+        int t = arm_target; arm_target = -1;
+        ilog("orm:" + std::to_string(id) + ":" + std::to_string(t));
+        cl->remove_observer(all->at(static_cast<std::size_t>(t)));
+    }
+    void on_connected(std::string_view h, std::uint16_t p) override { ilog("o" + std::to_string(id) + ":c:" + hex(std::string(h)) + ":" + std::to_string(p)); fire(); }
+    void on_request(std::string_view c) override { ilog("o" + std::to_string(id) + ":q:" + hex(std::string(c))); fire(); }
+    void on_reply(const ftp::reply & r) override { ilog("o" + std::to_string(id) + ":r:" + std::to_string(r.get_code()) + ":" + hex(r.get_status_string())); fire(); }
+    void on_file_list(std::string_view l) override { ilog("o" + std::to_string(id) + ":l:" + hex(std::string(l))); fire(); }
 };
 
 struct rec_sink : ftp::output_stream
@@ -155,7 +164,8 @@ std::string run(const std::vector<std::string> & tok)
     sc.srv.peer.v6 = sc.v6;
     sc.cl = std::make_unique<ftp::client>(mode, type, nullptr, rfc);
     sc.wire();
-    for (int i = 0; i < 3; i++) sc.obs.push_back(std::make_shared<rec_observer>(i));
+    for (int i = 0; i < 4; i++) sc.obs.push_back(std::make_shared<rec_observer>(i));
+    for (auto & o : sc.obs) { o->cl = sc.cl.get(); o->all = &sc.obs; }
     std::string out;
     auto emit = [&out](const std::string & t) { if (!out.empty()) out += " "; out += t; };
     std::size_t baseline_fds = open_client_fds();
@@ -268,6 +278,13 @@ std::string run(const std::vector<std::string> & tok)
                 ret = r ? "ret:opt:" + std::to_string(r->get_code()) + ":" + hex(r->get_status_string()) : std::string("ret:opt:none");
             }
             else if (n == "addobs") { sc.cl->add_observer(sc.obs.at(static_cast<std::size_t>(std::atoi(a.at(1).c_str())))); ret = "ret:void"; }
+            else if (n == "rmin")
+            {
+                // rmin:<i>:<j>  observer i removes observer j (i != j) from inside its next callback
+                int i = std::atoi(a.at(1).c_str()), j = std::atoi(a.at(2).c_str());
+                if (i == j || i < 0 || j < 0 || i >= 4 || j >= 4) return "bad-op";
+                sc.obs[static_cast<std::size_t>(i)]->arm_target = j; ret = "ret:void";
+            }
             else if (n == "rmobs") { sc.cl->remove_observer(sc.obs.at(static_cast<std::size_t>(std::atoi(a.at(1).c_str())))); ret = "ret:void"; }
             else if (n == "isconn") ret = std::string("ret:bool:") + (sc.cl->is_connected() ? "1" : "0");
             else if (n == "faults")
